@@ -240,3 +240,46 @@ Proof.
   - rewrite (source_discard s v (proj1 H)). cbn [fst]. apply IH. apply (discard_inv gen_cfg s v H).
   - rewrite source_add. cbn [fst]. apply IH. apply (add_inv s v H).
 Qed.
+
+(* ---- iteration and slicing -------------------------------------------------------------------------------------- *)
+Theorem source_iter s : src_iter s = m_live s.
+Proof. reflexivity. Qed.
+
+Lemma live_of_rev l : live_of (rev l) = rev (live_of l).
+Proof.
+  induction l as [|[x|] l IH]; simpl; [reflexivity| |].
+  - rewrite live_of_app, IH. reflexivity.
+  - rewrite live_of_app, IH. simpl. apply app_nil_r.
+Qed.
+
+Theorem source_reversed s : src_reversed s = rev (m_live s).
+Proof. unfold src_reversed, m_live. apply live_of_rev. Qed.
+
+Lemma slice_bound_src s (x : option Z) :
+  Z.to_nat (opt_get (if opt_lt0 x then Some (Z.max (opt_get x + lenZ s) 0)%Z else x)) =
+  match x with None => 0 | Some v => slice_bound s v end.
+Proof.
+  destruct x as [v|]; [|reflexivity]. unfold opt_lt0, slice_bound, lenZ. cbn [opt_get].
+  destruct (v <? 0)%Z; reflexivity.
+Qed.
+
+Theorem source_slice s a b (k : option nat) :
+  m_slice s a b k =
+  match src_iter_slice s a b (option_map Z.of_nat k) with
+  | None => Raise ValueError
+  | Some sl => Ok (RList (m_live (m_from_list sl)))          (* __getitem__: self.from_iterable(iter_slice) *)
+  end.
+Proof.
+  unfold src_iter_slice, m_slice. cbv zeta.
+  assert (SB : forall x, match (if opt_lt0 x then Some (Z.max (opt_get x + lenZ s) 0)%Z else x) with
+                         | Some z => Some (Z.to_nat z) | None => None end =
+                         match x with None => None | Some v => Some (slice_bound s v) end).
+  { intros [v|]; [|reflexivity]. unfold opt_lt0, slice_bound, lenZ. cbn [opt_get]. destruct (v <? 0)%Z; reflexivity. }
+  destruct k as [[|n]|]; cbn [option_map opt_lt0].
+  - reflexivity.
+  - replace (Z.of_nat (S n) <? 0)%Z with false by (symmetry; apply Z.ltb_ge; lia).
+    unfold py_islice. cbv zeta. rewrite slice_bound_src, SB.
+    replace (Z.of_nat (S n) <=? 0)%Z with false by (symmetry; apply Z.leb_gt; lia).
+    rewrite Nat2Z.id. reflexivity.
+  - unfold py_islice. cbv zeta. rewrite slice_bound_src, SB. reflexivity.
+Qed.
